@@ -308,6 +308,7 @@ def _run(chk: Check, tier: str, P: dict, rnd, work, pool, t_start):
             ("revert,panic(unknown)", "refinable", None, None),
             ("panic(garbage),panic(unknown)", "refinable", None, None),  # ERROR over TIMEOUT (control: swapped precedence)
             ("success,panic(unknown)", "refinable", None, None),
+            ("success,panic(garbage)", "refinable", None, None),  # an unusable reply is an ERROR, whatever its later lines say
         ],
         "gencache": [
             # --cache-solver: the core of an unsat query must not answer a satisfiable one, in either completion order
@@ -326,6 +327,7 @@ def _run(chk: Check, tier: str, P: dict, rnd, work, pool, t_start):
             ("success,panic(sat_abstract>timeout)", "refinable", None, None),
             # the solver cannot even be started (the solving thread ends in an exception): ERROR, never PASS
             ("success,panic(spawnfail)", "refinable", None, None),
+            ("success,panic(nonzero)", "refinable", None, None),
         ],
     }
     all_recs: dict = {}
